@@ -219,9 +219,10 @@ class NarrowAnalysis(Analysis):
                 cb = const_int(b)
                 if e0.v == "<" and cb == 0 and not want:
                     st = self._upd(st, a0.n, nonneg=True)
-                if e0.v == "==" and cb == -1 and not want:
+                minus1 = cb in (-1, 2 ** 64 - 1, 2 ** 32 - 1)
+                if e0.v == "==" and minus1 and not want:
                     st = self._upd(st, a0.n, errchk=True)
-                if e0.v == "!=" and cb == -1 and want:
+                if e0.v == "!=" and minus1 and want:
                     st = self._upd(st, a0.n, errchk=True)
         return st
 
